@@ -10,37 +10,46 @@ package satisfaction_levels
 //@ spec decMul(r real, c real) real = r*c
 //@ spec decSub(r real, c real) real = max(r-c, 0.0)
 
+// validFor: the manager accepts these series parameters (each manager refines it with its documented ranges)
+//@ spec validFor(m CoefficientManager, c real, mn real, mx real) bool
+//@ ifacemethod CoefficientManager.Validate
+//@   ensures validFor(self, params.Coefficient, params.MinValue, params.MaxValue)
+//@ pred incValid(m CoefficientManager, c real, mn real, mx real) = !(c <= 0.0 || c >= 1.0 || mn < 0.0 || mn > 1.0 || mx < 0.0 || mx > 1.0)
+//@ pred decValid(m CoefficientManager, c real, mn real, mx real) = !(c <= 0.0 || c >= 1.0 || mn <= 0.0 || mn > 1.0 || mx <= 0.0 || mx > 1.0)
+
 //@ func (*IncreasingCoefficientManager).Validate
 //@   property C14 C20
+//@   refines satisfaction_levels.CoefficientManager.Validate with validFor=incValid
 //@   panics_iff [range] params.Coefficient <= 0.0 || params.Coefficient >= 1.0 || params.MinValue < 0.0 || params.MinValue > 1.0 || params.MaxValue < 0.0 || params.MaxValue > 1.0
 //@ func (*IncreasingCoefficientManager).InitialValue
-//@   property C14
+//@   property C14 C20
 //@   ensures [initial] result == params.MinValue
 //@ func (*IncreasingCoefficientManager).HasNext
-//@   property C14
+//@   property C14 C20
 //@   ensures [hasnext] result <==> params.currentValue < params.MaxValue
 
 //@ func (*DecreasingCoefficientManager).Validate
 //@   property C14 C20
+//@   refines satisfaction_levels.CoefficientManager.Validate with validFor=decValid
 //@   panics_iff [range] params.Coefficient <= 0.0 || params.Coefficient >= 1.0 || params.MinValue <= 0.0 || params.MinValue > 1.0 || params.MaxValue <= 0.0 || params.MaxValue > 1.0
 //@ func (*DecreasingCoefficientManager).InitialValue
-//@   property C14
+//@   property C14 C20
 //@   ensures [initial] result == params.MaxValue
 //@ func (*DecreasingCoefficientManager).HasNext
-//@   property C14
+//@   property C14 C20
 //@   ensures [hasnext] result <==> params.currentValue > params.MinValue
 
 //@ func var:IdealIncreasingMulCoefficientSatisfaction#1
-//@   property C14
+//@   property C14 C20
 //@   ensures [formula] result == incMul(current, coefficient)
 //@ func var:IdealAdditiveCoefficientSatisfaction#1
-//@   property C14
+//@   property C14 C20
 //@   ensures [formula] result == incAdd(current, coefficient)
 //@ func var:IdealDecreasingMulCoefficientSatisfaction#1
-//@   property C14
+//@   property C14 C20
 //@   ensures [formula] result == decMul(current, coefficient)
 //@ func var:IdealSubtrCoefficientSatisfaction#1
-//@   property C14
+//@   property C14 C20
 //@   ensures [formula] result == decSub(current, coefficient)
 
 //@ lemma [C14] inc_mul_strictly_increasing: forall r real, c real, mx real
@@ -88,16 +97,16 @@ package satisfaction_levels
 //@   loop 1 invariant [only] forall q string :: q in weights ==> exists k int :: 0 <= k && k < iter && s.criteria[k].Id == q
 
 //@ func (*ThresholdSatisfactionLevels).HasNext
-//@   property C12 C13 C14
+//@   property C12 C13 C14 C07
 //@   ensures [hasnext] result <==> t.currentIndex + 1 < len(t.Thresholds)
 //@ func (*ThresholdSatisfactionLevels).Next
-//@   property C12 C13 C14
+//@   property C12 C13 C14 C07
 //@   requires 0 <= t.currentIndex + 1 && t.currentIndex + 1 < len(t.Thresholds)
 //@   assigns t
 //@   ensures [advance] t.currentIndex == old(t.currentIndex) + 1 && t.Thresholds == old(t.Thresholds)
 //@   ensures [level] result == old(t.Thresholds[t.currentIndex + 1])
 //@ func (*ThresholdSatisfactionLevels).Initialize
-//@   property C12 C13 C14 C20
+//@   property C12 C13 C14 C20 C07
 //@   assigns t
 //@   panics_iff [missing_threshold] exists i int, c int :: 0 <= i && i < len(t.Thresholds) && 0 <= c && c < len(dmp.Criteria) && !(dmp.Criteria[c].Id in t.Thresholds[i])
 //@   ensures [reset] t.currentIndex == -1 && t.Thresholds == old(t.Thresholds)
@@ -122,6 +131,7 @@ package satisfaction_levels
 //@   ensures [ranges_declared] forall k int :: 0 <= k && k < len(dmp.Criteria) && dmp.Criteria[k].ValuesRange != nil ==> s.criteriaValuesRanges[k] == *dmp.Criteria[k].ValuesRange
 //@   ensures [ranges_observed reveal:observed] forall k int :: 0 <= k && k < len(dmp.Criteria) && dmp.Criteria[k].ValuesRange == nil ==>
 //@              observedRange(s.criteriaValuesRanges[k], dmp.ConsideredAlternatives, dmp.NotConsideredAlternatives, dmp.Criteria[k].Id)
+//@   ensures [parameters_validated_by_the_manager] validFor(old(s.manager), old(s.Coefficient), old(s.MinValue), old(s.MaxValue))
 //@   ensures [start] s.currentValue == initval(old(s.manager), old(s.MinValue), old(s.MaxValue))
 //@   ensures [params_kept] s.Coefficient == old(s.Coefficient) && s.MaxValue == old(s.MaxValue) && s.MinValue == old(s.MinValue) && s.manager == old(s.manager)
 //@   loop 1 invariant [ranges_declared] forall k int :: 0 <= k && k < iter && dmp.Criteria[k].ValuesRange != nil ==> s.criteriaValuesRanges[k] == *dmp.Criteria[k].ValuesRange
@@ -131,3 +141,14 @@ package satisfaction_levels
 //@   loop 1 invariant [s2] s.Coefficient == old(s.Coefficient) && s.MaxValue == old(s.MaxValue) && s.MinValue == old(s.MinValue) && s.manager == old(s.manager)
 //@   loop 1 invariant [all] len(alternatives) == len(dmp.ConsideredAlternatives) + len(dmp.NotConsideredAlternatives)
 //@   loop 1 invariant [all1] forall k int :: 0 <= k && k < len(alternatives) ==> alternatives[k] == model.altAt(dmp.ConsideredAlternatives, dmp.NotConsideredAlternatives, k)
+
+// ---- no state shared between requests (C09): every request decodes its level parameters into a new object
+//@ func (*ThresholdSatisfactionLevelsSource).BlankParams
+//@   property C09 C14
+//@   nopanic
+//@   ensures [new_object_each_time] typeis(result, *ThresholdSatisfactionLevels) && fresh(result.(*ThresholdSatisfactionLevels))
+//@ func (*IdealCoefficientSatisfactionLevelsSource).BlankParams
+//@   property C09 C14
+//@   nopanic
+//@   ensures [new_object_each_time] typeis(result, *IdealCoefficientSatisfactionLevels) && fresh(result.(*IdealCoefficientSatisfactionLevels))
+//@             && result.(*IdealCoefficientSatisfactionLevels).manager == s.coefficientManager
